@@ -2,7 +2,7 @@
 (* Trace validation for Aggregate.tla: the registry variables are bound to the RAW content of the three store   *)
 (* prefixes of the real application, balances to the real bank / ERC-20 state.                                   *)
 EXTENDS Integers, Sequences, FiniteSets, TLC, Json, IOUtils
-CONSTANTS Coins, ExtContracts, BadContracts, ReindexAll, CheckNewAddr
+CONSTANTS Coins, ExtContracts, BadContracts, BonusContracts, ReindexAll, CheckNewAddr
 Trace == ndJsonDeserialize(IOEnv.TRACE_FILE)
 VARIABLES l, enabled, pairs, byErc20, byDenom, meta, cbal, escrow, csup, tbal, tesc, tsup, code, deployed, moved, last,
           govOn   \* ground truth kept by the trace: what governance last set the EnableAggregate parameter to (not what the module reads back)
